@@ -307,7 +307,7 @@ def strip_last_label(
                     else:
                         if isinstance(op, SsbLabel):
                             # If there is a label before, then something might jump here!
-                            if jump_counts.get(op.id, 0) > 1:
+                            if jump_counts.get(op.id, 0) > 0:
                                 op_before_ends_control_flow = False
                         else:
                             op_before_ends_control_flow = does_op_end_control_flow(
